@@ -49,14 +49,6 @@ func c19Engines(r *Run) []copyEngine {
 			continue
 		}
 		ce := copyEngine{name: e.name, f: f}
-		for _, p := range f.Params {
-			if p.Name() == e.src {
-				ce.src = p
-			}
-			if p.Name() == e.dst {
-				ce.dst = p
-			}
-		}
 		if ce.src == nil || ce.dst == nil {
 			// fall back on position: first two parameters of a store type
 			var stores []*ssa.Parameter
@@ -75,6 +67,28 @@ func c19Engines(r *Run) []copyEngine {
 		out = append(out, ce)
 	}
 	return out
+}
+
+// paramsOfType: the function's parameters whose type is the named type pkg.name, in order.
+func paramsOfType(f *ssa.Function, pkg, name string) []*ssa.Parameter {
+	var out []*ssa.Parameter
+	for _, p := range f.Params {
+		if typeIs(p.Type(), pkg, name) {
+			out = append(out, p)
+		}
+	}
+	return out
+}
+
+// isNthParamOfType: v is the n-th (0-based) parameter of its function having the given type; the
+// copy engines take (source, destination) pairs of stores, data instances and names in that order.
+func isNthParamOfType(v ssa.Value, pkg, name string, n int) bool {
+	p, ok := v.(*ssa.Parameter)
+	if !ok || p.Parent() == nil {
+		return false
+	}
+	ps := paramsOfType(p.Parent(), pkg, name)
+	return n < len(ps) && ps[n] == p
 }
 
 // peelAssert looks through conversions and (comma-ok) type assertions.
@@ -264,7 +278,7 @@ func ruleR19_1(r *Run) {
 			found := false
 			for _, a := range c.Common().Args {
 				for _, rt := range roots(a, ci) {
-					if p, ok := rt.V.(*ssa.Parameter); ok && p.Name() == argName {
+					if isNthParamOfType(rt.V, "dvid", "InstanceName", map[string]int{"source": 0, "target": 1}[argName]) {
 						found = true
 					}
 				}
@@ -289,7 +303,7 @@ func ruleR19_1(r *Run) {
 	// the uuid handed on is CopyInstance's own
 	uok := false
 	for _, rt := range roots(a[4], ci) {
-		if p, ok := rt.V.(*ssa.Parameter); ok && p.Name() == "uuid" {
+		if isNthParamOfType(rt.V, "dvid", "UUID", 0) {
 			uok = true
 		}
 	}
@@ -309,13 +323,8 @@ func originCall(v ssa.Value) ssa.Value {
 func c19FlattenCtx(r *Run, cd *ssa.Function) {
 	w := r.W
 	var d1, d2 *ssa.Parameter
-	for _, p := range cd.Params {
-		switch p.Name() {
-		case "d1":
-			d1 = p
-		case "d2":
-			d2 = p
-		}
+	if ds := paramsOfType(cd, "dvid", "Data"); len(ds) == 2 {
+		d1, d2 = ds[0], ds[1]
 	}
 	if d1 == nil || d2 == nil {
 		r.undecided("copyData:flatten-ctx", "parameters d1/d2 not found")
@@ -385,7 +394,7 @@ func c19FlattenCtx(r *Run, cd *ssa.Function) {
 		if okScan {
 			okScan = false
 			for _, rt := range roots(c.Common().Args[0], cd) {
-				if p, ok := rt.V.(*ssa.Parameter); ok && p.Name() == "uuid" {
+				if isNthParamOfType(rt.V, "dvid", "UUID", 0) {
 					okScan = true
 				}
 			}
@@ -587,10 +596,8 @@ func ruleR19_2(r *Run) {
 				if callee := c2.Common().StaticCallee(); callee != nil && callee.Name() == "UpdateInstance" {
 					okc := true
 					var d2 *ssa.Parameter
-					for _, pp := range cd.Params {
-						if pp.Name() == "d2" {
-							d2 = pp
-						}
+					if ds := paramsOfType(cd, "dvid", "Data"); len(ds) == 2 {
+						d2 = ds[1]
 					}
 					for _, rt := range ctxRoots(c2.Common().Args[0], fn) {
 						cc, ok := rt.V.(*ssa.Call)
@@ -649,8 +656,15 @@ func ruleR19_2(r *Run) {
 				if !ok || ld.Op != token.MUL {
 					return true
 				}
-				if fv, ok := ld.X.(*ssa.FreeVar); ok && fv.Name() == "dataInstanceChanged" {
-					return i == 0
+				// the "destination instance differs" flag: a captured bool that the enclosing function sets
+				// to true exactly where a separate destination instance was supplied (the else branch of
+				// `d2 == nil`); recognised by provenance, not by name
+				if fv, ok := ld.X.(*ssa.FreeVar); ok {
+					if pt, ok := fv.Type().(*types.Pointer); ok {
+						if bt, ok := pt.Elem().Underlying().(*types.Basic); ok && bt.Kind() == types.Bool {
+							return i == 0
+						}
+					}
 				}
 				return true
 			}
@@ -667,15 +681,19 @@ func ruleR19_2(r *Run) {
 					if idc, ok := stripConv(c2.Common().Args[1]).(*ssa.Call); ok && idc.Common().IsInvoke() && idc.Common().Method.Name() == "InstanceID" {
 						okid = true
 						for _, rt := range roots(idc.Common().Value, fn) {
-							if p, ok := rt.V.(*ssa.Parameter); !ok || !(p.Name() == "d2" || p.Name() == "d1") {
+							// the destination cell d2 (which holds d1 when no separate destination was given)
+							if !(isNthParamOfType(rt.V, "dvid", "Data", 1) || isNthParamOfType(rt.V, "dvid", "Data", 0)) {
 								okid = false
 							}
 						}
-						if ld, ok := idc.Common().Value.(*ssa.UnOp); ok {
-							if fv, ok := ld.X.(*ssa.FreeVar); !ok || fv.Name() != "d2" {
-								okid = false
+						// it must be read from the destination's cell, not the source's: some root is the 2nd Data parameter
+						viaDst := false
+						for _, rt := range roots(idc.Common().Value, fn) {
+							if isNthParamOfType(rt.V, "dvid", "Data", 1) {
+								viaDst = true
 							}
-						} else {
+						}
+						if !viaDst {
 							okid = false
 						}
 					}
@@ -731,7 +749,7 @@ func ruleR19_3(r *Run) {
 							if cc, ok := rt.V.(*ssa.Call); ok && cc.Common().StaticCallee() != nil && cc.Common().StaticCallee().Name() == "NewVersionedCtx" {
 								okB = true
 								for _, r2 := range roots(cc.Common().Args[0], rt.Fn) {
-									if p, ok := r2.V.(*ssa.Parameter); !ok || p.Name() != "d1" {
+									if !isNthParamOfType(r2.V, "dvid", "Data", 0) {
 										okB = false
 									}
 								}
@@ -742,7 +760,7 @@ func ruleR19_3(r *Run) {
 						if idc, ok := stripConv(rangeCall.Common().Args[0]).(*ssa.Call); ok && idc.Common().IsInvoke() && idc.Common().Method.Name() == "InstanceID" {
 							okB = true
 							for _, rt := range roots(idc.Common().Value, fn) {
-								if p, ok := rt.V.(*ssa.Parameter); !ok || p.Name() != "d1" {
+								if !isNthParamOfType(rt.V, "dvid", "Data", 0) {
 									okB = false
 								}
 							}
@@ -990,7 +1008,8 @@ func ruleR19_4(r *Run) {
 		}
 		callee := c.Common().StaticCallee()
 		if callee == nil || callee.Name() != "SaveDataByUUID" {
-			return false
+			// a helper all of whose success paths save the instance
+			return w.performs(in, []string{"SaveDataByUUID"}, 2) && callee != nil && callee.Name() != "SaveDataByUUID"
 		}
 		return isNamed(roots(c.Common().Args[1], ci), "newData")
 	}
